@@ -85,6 +85,44 @@ const BOUNDARY_LINES: &[&str] = &[
     "A = \"x\"",
     "PRINT A$(1) + 1",
     "RESTORE : READ A",
+    // every way a DEF can be malformed
+    "DEF",
+    "DEF 5",
+    "DEF FNA",
+    "DEF FNA(",
+    "DEF FNA(5) = 1",
+    "DEF FNA(X",
+    "DEF FNA(X Y) = 1",
+    "DEF FNA(X,) = 1",
+    "DEF FNA() = 1",
+    "DEF FNA(X) 1",
+    "DEF FNA(X) =",
+    "DEF FNA(X, X) = X",
+    // INPUT / READ into a target that fails for another reason than the item's type
+    "INPUT P8(20)",
+    "10 DATA 1 : READ P8(20)",
+    "10 DATA 1 : READ X : READ Y",
+    "NEXT I, J",
+    "FOR = 1 TO 2",
+    "FOR I = \"a\" TO 2",
+    "FOR I = 1 TO \"b\"",
+    "FOR I = 1 TO 2 STEP \"c\"",
+    "GOSUB",
+    "GOTO",
+    "GOTO X",
+    "IF",
+    "IF THEN 10",
+    "PRINT ,;,",
+    "DIM",
+    "DIM A(",
+    "DIM A(1",
+    "DIM A()",
+    "READ",
+    "READ ,",
+    "DATA",
+    "LET A",
+    "A(1",
+    "A(1) 5",
 ];
 
 fn deep(rng: &mut Rng) -> String {
